@@ -89,6 +89,7 @@ fn main() {
                 "SliceIter" => m_sliceiter::record(&mut rng, n, &mut out),
                 "Chars" => m_chars::record(&mut rng, n, &mut out),
                 "Split" => m_split::record(&mut rng, n, &mut out),
+                "CStr" => m_cstr::record(&mut rng, n, &mut out),
                 "Ownership-5" => m_ownership::record(5, &mut rng, n, &mut out),
                 "Ownership-8" => m_ownership::record(8, &mut rng, n, &mut out),
                 "ParseInt" => m_parseint::record(&mut rng, n, &mut out),
